@@ -54,3 +54,12 @@ Definition no_lower (bl1 bl2 : list node) : Prop :=
 (** requirement names: a configuration is a Go map, so names are unique; "no two names share a path" *)
 Definition names_unique (c : config) : Prop := NoDup (map fst c).
 Definition paths_unique (c : config) : Prop := NoDup (map (fun e => fst (snd e)) c).
+
+(** the requirement list an operation computes before names are attached (the [tx] callback of transformReqs) *)
+Definition op_versions (pick : list node -> nat) (U : universe) (o : op) (rootreqs : list node)
+  : outcome (list node) :=
+  match o with
+  | OpGet qpath k => get_versions pick U rootreqs qpath k
+  | OpTidy => tidy_versions pick U rootreqs
+  | OpUpgradeAll => upgrade_all_versions pick U rootreqs
+  end.
